@@ -10,7 +10,7 @@ from .. import gen_notes as G
 ID = "C08"
 N_QUICK, N_THOROUGH = 1200, 60000
 RULE = ("position-sorted random streams (1..16 columns, players 0..2 with gaps, denominators on and off the tick grid, mixed in a measure, skipped "
-        "measures, all types, keysounds), handed over as list / tuple / iterator / generator / filter object / NoteData, the empty stream in each of these forms, the notes of every corpus chart and of C07-style generated texts; compares the text of "
+        "measures, all types, keysounds), handed over as list / tuple / iterator / generator / filter object / NoteData (canonical text or not), the empty stream in each of these forms, the notes of every corpus chart and of C07-style generated texts; compares the text of "
         "NoteData.from_notes with the model's encoder and the decoded notes; non-trivial = at least 2 notes")
 assumptions = ["input beats are reduced fractions (Fraction normalises them)"]
 extra_trusted = []
@@ -27,7 +27,7 @@ def corpus():
     return out
 
 
-VIAS = ["list", "iter", "gen", "tuple", "filter", "notedata"]        # how the stream reaches from_notes (it takes any iterable)
+VIAS = ["list", "iter", "gen", "tuple", "filter", "notedata", "notedata_raw"]        # how the stream reaches from_notes (it takes any iterable)
 
 
 def gen(rng, i, tier):
@@ -53,6 +53,17 @@ def as_stream(notes, via, cols):
     if via == "notedata":
         from simfile.notes import NoteData
         return NoteData.from_notes(notes, cols)                 # a NoteData is itself an iterable of its notes
+    if via == "notedata_raw":
+        # a NoteData holding the same notes in a text that is not the canonical one: indented rows, each followed by an empty row
+        from simfile.notes import NoteData
+        lines = []
+        for ln in str(NoteData.from_notes(notes, cols)).split("\n"):
+            if ln.strip() in (",", "&", ""):
+                lines.append(ln)
+            else:
+                lines.append("  " + ln)
+                lines.append("0" * cols)
+        return NoteData("\n".join(lines))
     return notes
 
 
